@@ -69,6 +69,7 @@ def run(ck):
     else:
       d = rtlgen.generate(rng, max_blocks=6, max_regs=5, min_regs=1, with_children=(rng.random() < 0.5))
     src = d.source()
+    ck.extra_cov.setdefault('sample_design_source', src)
     cls = rtlgen.load_class(ck.workdir, d)
     cycles = rtlgen.gen_inputs(rng, d, rng.randint(6, 10))
     ref = rtlgen.RefSim(d)
